@@ -29,7 +29,8 @@ enum OpKind {
     OP_HWAIT,       // harness wait    vs::block_until(label, pred); enabled iff pred()
     OP_SLEEP,       // nanosleep / sched_yield
     OP_EXIT,        // pseudo-op: thread function returned
-    OP_TRYLOCK
+    OP_TRYLOCK,
+    OP_IDLEWAIT     // harness: vs::wait_quiescent(label); enabled iff no other thread is enabled
 };
 const char *op_name(OpKind k);
 
@@ -63,7 +64,7 @@ public:
     // An operation has just been applied on the model (before the thread resumes user code).
     virtual void on_op(int thread, OpKind kind, const void *obj, const void *obj2, const char *label, int aux) {}
     virtual void on_deadlock(const std::vector<ThreadView> &threads) {}
-    virtual void on_all_finished() {}
+    virtual void on_all_finished(const std::vector<ThreadView> &threads) {}
     // result 1 = deadlock (after on_deadlock), 2 = STOP; the process _exit(0)s right after.
     virtual void on_abort(int result) {}
 };
@@ -77,6 +78,7 @@ bool active();
 int self();                                   // managed id of the calling thread, -1 if unmanaged
 void yield(const char *label);                // marker yield point
 void block_until(const char *label, const std::function<bool()> &pred);
+void wait_quiescent(const char *label);       // returns once no other managed thread can run
 int64_t clock_ms();                           // virtual clock
 int mutex_owner(const void *m);               // -1 if free / unknown
 int thread_count();
